@@ -376,6 +376,7 @@ func (a *Act) unop(ctx *blockCtx, x *ssa.UnOp) {
 			g.fact("(= " + n + " " + r.T + ")")
 			r.T = n
 		}
+		g.assumeType(r)
 		a.set(x, r)
 	case token.NOT:
 		a.set(x, boolT(not(v.T)))
@@ -653,7 +654,8 @@ func (a *Act) typeAssert(ctx *blockCtx, x *ssa.TypeAssert) {
 func (g *Gen) mapRead(st State, m Val, k Val, mt *types.Map) Val {
 	hv, _, vs := g.w.mapHeap(mt)
 	cur := "(select " + g.stateGet(st, hv) + " " + m.T + ")"
-	t := "(ite (and (not (= " + m.T + " ref_nil)) (select (map_dom " + cur + ") " + k.T + ")) (select (map_val " + cur + ") " + k.T + ") " + g.w.zeroSort(vs) + ")"
+	ks := g.w.sortOf(mt.Key())
+	t := "(ite (= " + m.T + " ref_nil) " + g.w.zeroSort(vs) + " (" + g.mgetFn(ks, vs) + " " + cur + " " + k.T + "))"
 	return Val{T: t, S: vs, G: mt.Elem()}
 }
 
@@ -812,4 +814,22 @@ func (a *Act) spawn(ctx *blockCtx, x *ssa.Go) {
 		g.oblige("pre", fmt.Sprintf("%s/go:%s/pre%d%s", a.key, shortName(key), k, labelSuffix(c)), ctx.reach, t, c.Src, g.pos(x.Pos()), a.callProps(c, spec))
 	}
 	g.usedAssumed["go statement: "+key+" runs concurrently; only its precondition is checked at the spawn point (sequentialisation trusted)"] = true
+}
+
+// assumeType: typing facts of Go values read from memory (slice lengths are non-negative).
+func (g *Gen) assumeType(v Val) {
+	switch {
+	case strings.HasPrefix(v.S, "(Slc "):
+		g.fact("(>= (slc_len " + v.T + ") 0)")
+	case strings.HasPrefix(v.S, "S_"):
+		ss := g.w.structSorts[v.S]
+		if ss == nil {
+			return
+		}
+		for i, fs := range ss.Sorts {
+			if strings.HasPrefix(fs, "(Slc ") {
+				g.fact("(>= (slc_len (" + ss.Fields[i] + " " + v.T + ")) 0)")
+			}
+		}
+	}
 }
